@@ -136,6 +136,10 @@ func (d *Decoder) decodeOBUs(pkt *rtp.Packet) ([][]byte, error) {
 		d.resetFragments()
 	} else {
 		d.firstPacketReceived = true
+
+		// the first OBU is not a continuation: fragments left over
+		// from a previous packet (whose continuation was lost) are stale.
+		d.resetFragments()
 	}
 
 	// last OBU will continue in next packet
